@@ -2247,6 +2247,28 @@ pub fn run(ctx: &mut Ctx) {
     ctx.assume("substream varint length prefixes are covered by C04, not here; RSA keys are not compiled in (feature off)");
     ctx.assume("an infinite loop inside a single synchronous call is only detected by a 30 s wall-clock watchdog (never reached on a passing run)");
 
+    // Noise transport frames: the only length-prefixed decoder with state (it needs a session); the one place where a
+    // peer-chosen length meets a fixed buffer is the end of the read-ahead window — swept with C02's executor
+    {
+        let cases = super::c02::read_ahead_boundary_cases();
+        let mut n = 0u64;
+        for c in &cases {
+            n += 1;
+            for (sig, what) in super::c02::violations_of(c) {
+                if sig.starts_with("panic/") {
+                    ctx.violation(Violation {
+                        signature: format!("panic/noise_socket_read/{}", sig.trim_start_matches("panic/")),
+                        what,
+                        replay: json!({"via": "C02", "case": serde_json::to_value(c).unwrap_or_default()}),
+                    });
+                }
+            }
+        }
+        ctx.cov_add("evaluations", n);
+        ctx.sub("noise_frame_at_read_ahead_window_end", json!({"cases": n}));
+    }
+    ctx.assume("Noise transport frames are decoded by the stateful NoiseSocket: byte-stream behaviour is C02's; here only 'no panic' on the sweep of a maximum-size frame over every offset near the end of the read-ahead window (read-ahead factors 1 and 5)");
+
     // corpora and round trips
     let runs = honest_runs();
     let kadc = corpus_kademlia();
@@ -2421,6 +2443,9 @@ pub fn run(ctx: &mut Ctx) {
 // ------------------------------------------------------------------------------------------------
 
 pub fn replay(case: &Value) -> Result<String, String> {
+    if case["via"] == "C02" {
+        return super::c02::replay(&case["case"]);
+    }
     let dec = case["decoder"].as_str().and_then(Dec::from_name).ok_or("case has no known decoder")?;
     if let Some(kind) = case["roundtrip_kind"].as_str() {
         let runs = honest_runs();
